@@ -27,7 +27,7 @@ class C01(Scenario):
     prop = "C01"
     level = "exploration"
     profiles = ["reduce"]
-    budgets = {"quick": 4000, "thorough": 80000}
+    budgets = {"quick": 16000, "thorough": 300000}
     wall_caps = {"quick": 110, "thorough": 1500}
     rule = ("one run = one aggregation job: seeded tree (19 primitives, dyadic regime), weighted records from the "
             "tree's critical alphabet, partition into k chunks (with empty ones), executor speeds / crash+retry, "
